@@ -22,7 +22,9 @@ def arm_unit(name, root, target, **kw):
 UNITS += [
     arm_unit("encode_logical_imm", "asmjit::arm::Utils::encode_logical_imm", "arm_Utils_encode_logical_imm", unwind=34,
              note="soundness and completeness against DecodeBitMasks for all 2^64 immediates x {32,64}; element-width loop <= 6 iterations fully unwound"),
-    arm_unit("is_logical_imm", "asmjit::arm::Utils::is_logical_imm", "arm_Utils_is_logical_imm", unwind=34),
+    arm_unit("is_logical_imm", "asmjit::arm::Utils::is_logical_imm", "arm_Utils_is_logical_imm", unwind=34, defines=["VERIF_UNIT_IS_LOGICAL_IMM=1"],
+             stops=["asmjit::arm::Utils::encode_logical_imm"], replace=["arm_Utils_encode_logical_imm"],
+             note="modular: encode_logical_imm replaced by its contract (unit c17.encode_logical_imm) plus a ghost record of the call"),
     arm_unit("is_add_sub_imm", "asmjit::arm::Utils::is_add_sub_imm", "arm_Utils_is_add_sub_imm"),
     arm_unit("is_fp16_imm8", "asmjit::arm::Utils::is_fp16_imm8", "arm_Utils_is_fp16_imm8", unwind=257),
     arm_unit("is_fp32_imm8", "asmjit::arm::Utils::is_fp32_imm8#(u32", "arm_Utils_is_fp32_imm8__u32", unwind=257),
